@@ -8,6 +8,9 @@ CONSTANTS
   FixBatch = TRUE
   LossySend = TRUE
   HasKeepalive = TRUE
+  DirectCalls = TRUE
+  MaxMsgLen = 1
+  AsyncApply = FALSE
 INVARIANTS TypeOK InSync InSyncUnlessAmbiguous SetTracksDeps NoDeadlock
 PROPERTIES Converges CallerReturns KeepsRetrying
 CHECK_DEADLOCK FALSE
